@@ -35,6 +35,12 @@ BadRT(e) ==
   ELSE IF TooLongOnly(t, p) THEN T(~e.encerr, "C01.toolong_accepted")
   ELSE {}
 
+\* a conformant image read into an object that held another PDU before, and its header read from a stream that delivers
+\* one octet at a time: the same values
+BadReuse(e) ==
+  T("usame" \in DOMAIN e /\ ~e.usame, "C02.reads.used_object")
+  \cup T("hdrok" \in DOMAIN e /\ ~e.hdrok, "C02.reads.header_from_reader")
+
 BadRelay(e) ==
   LET t == e.type IN
   IF e.panic THEN {"C11.panic"}
@@ -48,6 +54,9 @@ BadRelay(e) ==
        \* (optional parameters come out of a map: their order may differ between two encodes, Conforms allows that)
        \cup T(e.u # "skip" /\ (e.u # "ok" \/ (e.b1u # e.b1 /\ (~RefDecode(t, e.b1).ok \/ ~Conforms(t, RefDecode(t, e.b1).p, e.b1u)))),
               "C11.used_object")
+       \* a PDU the dispatcher handed out, kept while the next frame of the same command is dispatched, relays like a fresh one
+       \cup T(e.h # "skip" /\ (e.h # "ok" \/ (e.b1h # e.b1 /\ (~RefDecode(t, e.b1).ok \/ ~Conforms(t, RefDecode(t, e.b1).p, e.b1h)))),
+              "C11.held_object")
 
 BadFuzz(e) ==
   IF e.outcome = "skipped" THEN {} ELSE
@@ -70,7 +79,7 @@ BadTags(e) ==
 
 Bad(e) ==
   CASE e.ev = "TagTable" -> BadTags(e)
-    [] e.ev = "RT" -> BadRT(e) \cup T(e.type = "cmpp.SubPduDeliveryContent" /\ BadRT(e) # {}, "C18.statusreport")
+    [] e.ev = "RT" -> BadReuse(e) \cup BadRT(e) \cup T(e.type = "cmpp.SubPduDeliveryContent" /\ BadRT(e) # {}, "C18.statusreport")
     [] e.ev = "Relay" -> BadRelay(e)
     [] e.ev = "Fuzz" -> BadFuzz(e)
 
